@@ -214,7 +214,7 @@ class World:
             if op == "fill":
                 frames = [o.frame for o in tm.collision_objects]
                 rec["frames"] = frames
-                rec["tm"] = {f: self.tm_pose(f) for f in list(bvh.colliders_) + frames}
+                raw_tm = {f: self.tm_pose(f) for f in list(bvh.colliders_) + frames}
                 before = dict(bvh.colliders_)
                 with warnings.catch_warnings(record=True) as wl:
                     warnings.simplefilter("always")
@@ -225,11 +225,11 @@ class World:
                     c = bvh.colliders_.get(f)
                     if c is not None and before.get(f) is not c and id(c) not in self.by_id:
                         kind, params = self.urdf_geom[f]
-                        i = self.register(c, kind, params, rec["tm"][f])
+                        i = self.register(c, kind, params, raw_tm[f])
                         new.append([f, i])
                 rec["new"] = new
                 self.added |= set(frames)
-                rec["tm"] = {f: (None if p is None else self._stamp_frame(f, p)) for f, p in rec["tm"].items()}
+                rec["tm"] = {f: (None if p is None else self._stamp_frame(f, p)) for f, p in raw_tm.items()}
                 if cmd.get("whitelists", False):
                     rec["transforms"] = [[a, b] for a, b in tm.transforms.keys()]
                     rec["nodes"] = list(tm.nodes)
@@ -263,8 +263,8 @@ class World:
                 else:
                     bvh.self_collision_whitelists_.update({k: list(v) for k, v in cmd["wl"].items()})
             elif op == "update":
-                rec["tm"] = {f: self.tm_pose(f) for f in bvh.colliders_}
-                rec["tm"] = {f: (None if p is None else self._stamp_frame(f, p)) for f, p in rec["tm"].items()}
+                raw_tm = {f: self.tm_pose(f) for f in bvh.colliders_}
+                rec["tm"] = {f: (None if p is None else self._stamp_frame(f, p)) for f, p in raw_tm.items()}
                 bvh.update_collider_poses()
             elif op == "query":
                 q = make(cmd["kind"], cmd["params"], arr44(cmd["pose"]))
@@ -338,7 +338,7 @@ def main():
             res.append(run_case(case))
         except Exception as e:  # noqa
             res.append(dict(harness_exc=type(e).__name__, harness_msg=str(e)[:300], tb=traceback.format_exc()[-800:]))
-    open(sys.argv[2], "w").write(json.dumps(dict(results=res)))
+    open(sys.argv[2], "w").write(json.dumps(dict(results=res), default=lambda o: f"<unserialisable {type(o).__name__}>"))
 
 
 if __name__ == "__main__":
